@@ -4,6 +4,15 @@ SIM_NOTE = ("trusted base: the behavioural nRF24L01+ simulator (vlib/sim, self-t
             "driver; chip assumptions (a)-(e) of DESIGN.md 2.6")
 
 CHECKS = [
+    {"property_id": "C05", "level": "exploration",
+     "text": "Hypothesis-generated scenarios: a drawn parent-closed topology of 2..12 nodes (depth <= 4, full and routing-only "
+             "nodes), every node running its own update() loop as a task on its own simulated radio with a drawn MCU timing model, "
+             "1..4 sequential messages (lengths 0..144, user types 0..127, write()/send(), fresh or explicit ids); after each message "
+             "the network is left to become quiescent and all queues are compared with what was sent; schedules are sampled "
+             "(seeded timing models), so an interleaving that needs a particular sub-millisecond alignment can be missed",
+     "design_ref": "4/C05", "note": SIM_NOTE + "; loss-free medium with first-locked-wins on overlap; one open known finding "
+     "(pipelined fragments, DESIGN 5.3) is excluded by signature and counted",
+     "technique": "property-based testing: Hypothesis-generated topologies/messages/timing models on a multi-node discrete-event simulation, delivery oracle over all queues"},
     {"property_id": "C04", "level": "exploration",
      "text": "one simulated radio per address, RF24Network constructed on each: the six pipe addresses of all 781 nodes are read "
              "from the radios and compared with the reference translation, pairwise uniqueness and level sharing are checked "
